@@ -299,6 +299,17 @@ def run_check(prop, tier, seed):
         if getattr(v, "prebuilt_replay", None):
             paths.append(v.prebuilt_replay)
             continue
+        if v.mode == "long":
+            # a long append run has no op list: it is replayed from (universe, seed, run index)
+            os.makedirs(replay_dir, exist_ok=True)
+            path = os.path.join(replay_dir, "%s-long-%s-%d.replay" % (prop, v.universe, v.seed))
+            with open(path, "w") as f:
+                f.write("svsim-replay 1\nproperty %s\nuniverse %s\nflavour long\nexpect %s\nseed_base %d\n"
+                        "run_index %d\nlong_n %s\nnote %s\n" % (prop, v.universe, v.oracle, seed,
+                                                                getattr(v, "run_index", 0), long_n_of(prop, tier), v.msg))
+            print("[check %s] %s in a long append run of %s: %s" % (prop, v.oracle, v.universe, v.msg))
+            paths.append(path)
+            continue
         path, ok, info = D.gate_and_minimise(binary, v, prop, replay_dir, budget_s=45, known_args=kargs)
         print("[check %s] %s at %s in %s (%d occurrence(s)): %s" % (prop, v.oracle, v.op_kind,
                                                                    v.universe, count, v.msg))
@@ -312,9 +323,38 @@ def run_check(prop, tier, seed):
     return finish(prop, tier, seed, t0, agg, extra_cov, mine, paths, known_lines, machinery_error)
 
 
+def long_n_of(prop, tier):
+    for st in plan(prop, tier):
+        if st["mode"] == "long":
+            return st["args"][st["args"].index("--long-n") + 1]
+    return "100000"
+
+
+def replay_long(prop, path):
+    d = {}
+    with open(path) as f:
+        for line in f:
+            k, _, v = line.rstrip("\n").partition(" ")
+            d[k] = v
+    binary = B.build("asan20", ALL)
+    idx = int(d.get("run_index", 0))
+    rc, out, err = D.run_proc([binary, "--universe", d["universe"], "--mode", "long", "--seed", d.get("seed_base", "1"),
+                               "--runs", "%d:%d" % (idx, idx + 1), "--long-n", d.get("long_n", "100000"),
+                               "--prop", str(int(prop[1:]))], timeout=1800)
+    hit = [l for l in out.splitlines() if l.startswith("VIOL ") and (" " + d["expect"] + " ") in l]
+    if hit:
+        print(hit[0][:300])
+        print("VIOLATION property=%s replay=%s" % (prop, path))
+        return 1
+    print("[replay] the long run no longer violates %s" % d["expect"])
+    return 0
+
+
 def replay_file(prop, path):
     d = D.read_replay(path)
     fl = d["flavour"] or "asan20"
+    if fl == "long":
+        return replay_long(prop, path)
     if fl.startswith("special:"):
         import specials as S
         return S.replay_special(prop, path, d)
